@@ -841,6 +841,47 @@ fn inputs(prop: &str, seed: u64, w: u32, thorough: bool) -> Inputs {
     let n = (w / 8) as usize;
     let mut r = Rng::new(seed ^ ((w as u64) << 32) ^ (prop.as_bytes()[2] as u64 * 131 + prop.as_bytes()[1] as u64));
     let mut i = Inputs::default();
+    if thorough && w == 8 {
+        // thorough tier: the 8-bit types completely -- every operand pair of every family
+        let all: Vec<B> = (0..=255u8).map(|v| vec![v]).collect();
+        let all_pairs: Vec<(B, B)> = all.iter().flat_map(|a| all.iter().map(move |b| (a.clone(), b.clone()))).collect();
+        match prop {
+            "C01" => {
+                i.vals = all.clone();
+                i.pairs = all_pairs;
+            }
+            "C02" => {
+                i.mul = all_pairs.into_iter().map(|(a, b)| { let c = vec![a[0].wrapping_mul(7) ^ b[0].wrapping_mul(13)]; (a, b, c) }).collect();
+            }
+            "C03" => {
+                i.div = all_pairs;
+            }
+            "C08" => {
+                i.pow = all.iter().flat_map(|a| (0..=10u32).chain([15, 16, 17, 31, 32, 33, 255, 256, u32::MAX]).map(move |e| (a.clone(), e))).collect();
+                i.log = all_pairs;
+                i.logx = all.clone();
+            }
+            "C04" => {
+                i.vals = all.clone();
+                i.pairs = all_pairs.iter().step_by(7).cloned().collect();
+                i.mul = all_pairs.iter().step_by(5).map(|(a, b)| (a.clone(), b.clone(), vec![a[0] ^ b[0]])).collect();
+                i.div = all_pairs.iter().step_by(3).cloned().collect();
+                i.pow = all.iter().flat_map(|a| [0u32, 1, 2, 3, 7, 8, 9].into_iter().map(move |e| (a.clone(), e))).collect();
+                i.log = all_pairs.iter().step_by(11).cloned().collect();
+                i.logx = all.clone();
+                i.shifts = all.iter().flat_map(|a| (-2i128..=18).map(move |k| (a.clone(), k))).collect();
+                i.npot = all.clone();
+            }
+            _ => panic!("unknown property"),
+        }
+        return i;
+    }
+    if thorough && w == 16 && prop == "C01" {
+        // every 16-bit value for the unary families (neg, abs, ...) on top of the sampled pairs
+        i.vals = (0..=65535u32).map(|v| vec![v as u8, (v >> 8) as u8]).collect();
+        i.pairs = gen::pairs(&mut r, n, 1500);
+        return i;
+    }
     // very wide types get fewer quadratic-cost events: TLC's exact products cost ~n^2
     let scale = |q: usize, t: usize| -> usize {
         let base = if thorough { t } else { q };
